@@ -234,6 +234,39 @@ def eval_expr(v, leaf):
         return eval_expr(('bin', _ops[v[1]], v[3][0], v[3][1]), leaf)
     if k in ('ref', 'deref') and len(v) > 1:
         return eval_expr(v[1], leaf)
+    if k == 'call' and v[1] in ('unwrap_or', 'unwrap_or_default', 'unwrap_or_else') and len(v) > 3 and v[3]:
+        # `a.checked_op(b).unwrap_or(d)`: the exact result, or d where it does not fit the type
+        inner = strip(v[3][0])
+        if isinstance(inner, tuple) and inner and inner[0] == 'call' and inner[1] in ('checked_add', 'checked_sub', 'checked_mul') and len(inner[3]) == 2:
+            import re as _re
+            a, b = eval_expr(inner[3][0], leaf), eval_expr(inner[3][1], leaf)
+            if a is None or b is None:
+                return None
+            m = _re.search(r'<impl u(\d+|size)>', str(inner[2]))
+            bits = 64 if not m or m.group(1) == 'size' else int(m.group(1))
+            r = {'checked_add': a + b, 'checked_sub': a - b, 'checked_mul': a * b}[inner[1]]
+            if 0 <= r < (1 << bits):
+                return r
+            if v[1] == 'unwrap_or' and len(v[3]) > 1:
+                return eval_expr(v[3][1], leaf)
+            if v[1] == 'unwrap_or_default':
+                return 0
+            return None
+        if isinstance(inner, tuple) and inner and inner[0] == 'call' and inner[1] in ('try_into', 'try_from') and inner[3]:
+            # a fallible integer conversion with a fallback: the value where it fits the target, else the fallback
+            a = eval_expr(inner[3][0], leaf)
+            ga = [g for g in (inner[4] or ()) if g in ('u8', 'u16', 'u32', 'u64', 'u128', 'usize')]
+            tgt = (ga[1] if inner[1] == 'try_into' and len(ga) > 1 else ga[0]) if ga else None
+            if a is None or tgt is None or not isinstance(a, int) or isinstance(a, bool):
+                return None
+            bits = {'u8': 8, 'u16': 16, 'u32': 32, 'u64': 64, 'u128': 128, 'usize': 64}[tgt]
+            if 0 <= a < (1 << bits):
+                return a
+            if v[1] == 'unwrap_or' and len(v[3]) > 1:
+                return eval_expr(v[3][1], leaf)
+            return 0 if v[1] == 'unwrap_or_default' else None
+    if k == 'call' and v[1] in ('into', 'from') and len(v) > 3 and len(v[3]) == 1:
+        return eval_expr(v[3][0], leaf)
     if k == 'call' and v[1] in ('saturating_add', 'wrapping_add', 'saturating_sub', 'min', 'max', 'saturating_mul', 'saturating_div'):
         a, b = eval_expr(v[3][0], leaf), eval_expr(v[3][1], leaf)
         if a is None or b is None:
@@ -247,6 +280,12 @@ def eval_expr(v, leaf):
             m = _re.search(r'<impl u(\d+|size)>', str(v[2]))
             bits = 64 if not m or m.group(1) == 'size' else int(m.group(1))
             return min(a * b, (1 << bits) - 1)
+        if v[1] == 'saturating_add':
+            import re as _re
+            m = _re.search(r'<impl u(\d+|size)>', str(v[2]))
+            if m:
+                bits = 64 if m.group(1) == 'size' else int(m.group(1))
+                return min(a + b, (1 << bits) - 1)
         return {'saturating_add': a + b, 'wrapping_add': a + b, 'saturating_sub': max(a - b, 0), 'min': min(a, b), 'max': max(a, b)}[v[1]]
     return None
 
@@ -594,6 +633,11 @@ def stable_fkey(facts, fn):
             so = _single_owner(facts, fn)
             if so is not None:
                 return stable_fkey(facts, so)
+    if owner is fn and fn['kind'] == 'AssocFn' and not fn.get('trait') and fn.get('vis') not in ('Public', None) and fn.get('ctx') not in ('trait_impl', 'trait_default'):
+        # likewise a private inherent method used by exactly one function
+        so = _single_owner(facts, fn)
+        if so is not None and so is not fn:
+            return stable_fkey(facts, so)
     return fkey(fn)
 
 
